@@ -442,6 +442,37 @@ def doAbuf : List String → String
             | some k => let a' := a.truncate k; go a' (("ok|" ++ vis a') :: acc) rest
             | none => none
           | ['c'] => let a' := a.clear; go a' (("ok|" ++ vis a') :: acc) rest
+          | ['q'] =>
+            -- `==` is `**self == **other` (util.rs:99-103): compare with a buffer freshly collected from the
+            -- visible bytes, with one whose last byte differs, and with one that is one byte shorter
+            match a.deref with
+            | .ok v =>
+              let eqv (x y : ArrayBuf) : Bool :=
+                match x.deref, y.deref with
+                | .ok p, .ok q => p == q
+                | _, _ => false
+              let mk (bs : List UInt8) : ArrayBuf :=
+                match ArrayBuf.fromIter n bs with
+                | .ok b => b
+                | _ => ArrayBuf.new n
+              let fresh := mk v
+              let e1 := eqv a fresh && eqv fresh a
+              let e2 := match v.reverse with
+                | [] => false
+                | l :: r => let other := mk ((l ^^^ 0x40) :: r).reverse; eqv a other || eqv other a
+              let e3 := !v.isEmpty && (eqv a (mk v.dropLast) || eqv (mk v.dropLast) a)
+              go a (s!"eq:{b01 e1}{b01 e2}{b01 e3}" :: acc) rest
+            | _ => some (("panic" :: acc).reverse)
+          | ['d'] =>
+            -- `Debug` formats `**self` (util.rs:93-97): `{:?}` and `{:x?}` of the visible bytes
+            match a.deref with
+            | .ok v =>
+              let hx (b : UInt8) : String :=
+                if b.toNat < 16 then String.ofList [hexDigit b.toNat] else hexByte b
+              let dec := "[" ++ ",".intercalate (v.map fun b => toString b.toNat) ++ "]"
+              let hex := "[" ++ ",".intercalate (v.map hx) ++ "]"
+              go a (s!"dbg:{dec}:{hex}" :: acc) rest
+            | _ => some (("panic" :: acc).reverse)
           | 'i' :: h =>
             match parseBytes (String.ofList h) with
             | some bs =>
